@@ -14,7 +14,7 @@ from ..common import Report, Violation
 
 FAULTS = ("eof", "rst", "rderr", "wrerr")
 # scenarios whose faults are also enumerated at line granularity in the quick tier (all of them in the thorough tier)
-FINE_SCENARIOS = ("inbound-handshake", "outbound-handshake", "request-answer-basic", "held-answers", "two-connections", "disconnect-peer", "watchdog",
+FINE_SCENARIOS = ("inbound-handshake", "outbound-handshake", "outbound-handshake-rejected", "request-answer-basic", "held-answers", "two-connections", "disconnect-peer", "watchdog",
                   "threading-limit1-answer", "threading-limit1-none", "threading-limit2-raise", "threading-limit1-slow")
 OUTCOMES = ("answer", "none", "raise", "slow")
 LONG_LIVED = ("_handle_connections", "_collect_stats", "_wait_for_recv_msg", "_wait_for_resp_msg")
@@ -40,6 +40,8 @@ def scenarios(tier):
     out.append(("inbound-handshake", "basic", 0, "answer", ["refused"], [("accept",), ("m", 0, "cer_p0"), ("m", 0, "req")]))
     out.append(("outbound-handshake", "basic", 0, "answer", ["ok"], [("m", 0, "cea_ok"), ("m", 0, "req")]))
     out.append(("outbound-handshake-in-progress", "basic", 0, "answer", ["inprogress"], [("resolve", 0, True), ("m", 0, "cea_ok")]))
+    # the dialled peer rejects the CER; with the fault kind "eofacc" the peer also hangs up and a new peer connects in the same instant
+    out.append(("outbound-handshake-rejected", "basic", 0, "answer", ["ok"], [("m", 0, "cea_3xxx"), ("tick", 1)]))
     out.append(("request-answer-basic", "basic", 0, "answer", ["refused"], [("accept",), ("m", 0, "cer_p0"), ("m", 0, "req"), ("m", 0, "req_missing"), ("m", 0, "req")]))
     out.append(("odd-traffic", "basic", 0, "answer", ["refused"], [("accept",), ("m", 0, "cer_p0"), ("m", 0, "untyped"), ("m", 0, "unkcmd"), ("m", 0, "req_T"),
                                                                      ("m", 0, "ans_unknown"), ("m", 0, "ans_nohost"), ("m", 0, "cea_unsolicited"), ("m", 0, "dwa_norc"),
@@ -94,7 +96,7 @@ def inject(sc, kind):
     fs = cands[-1]
     for s in sc.socks:
         if s.fs is fs:
-            s.env_closed = kind in ("eof", "rst", "rderr")
+            s.env_closed = kind in ("eof", "rst", "rderr", "eofacc")
     if kind == "eof":
         fs.eof = True
         nw.world.obs("env_eof", fs.sid)
@@ -107,6 +109,24 @@ def inject(sc, kind):
     elif kind == "wrerr":
         fs.send_plan.append(-errno.EPIPE)
         nw.world.obs("env_write_error", fs.sid)
+    elif kind == "eofacc":
+        # the peer hangs up and, in the same instant, another peer's connection attempt reaches the listener (the descriptor number of
+        # the closed socket is handed to it when the node accepts it)
+        fs.eof = True
+        nw.world.obs("env_eof", fs.sid)
+
+        def newcomer():
+            if nw.world.listeners and not nw.world.listeners[0].closed:
+                sc.max_socks = len(sc.socks) + 1
+                k = len(sc.socks)
+                ns = nw.accept(ip=f"10.0.9.{2 + k}", run=False)
+                sc.socks.append(scenario.Sock(ns, "accepted", k))
+                sc.socks[-1].newcomer = True
+        ch = getattr(sc, "handover_chooser", None)
+        if ch is not None:
+            ch.after.append(newcomer)       # after the node has dealt with the close (second step of the fault)
+        else:
+            newcomer()
     elif kind == "connfail":
         if fs.connecting and not fs.conn_done:
             fs.resolve_connect(False)
@@ -150,6 +170,7 @@ def run_scenario(spec, fault=None, cut=None, fine=False):
     else:
         sk.set_line_points({})
     sc = scenario.Scenario(cfg, chooser=ch, max_socks=6, start_plan=list(start_plan), app_timeout=2)
+    sc.handover_chooser = ch
     vs = []
     try:
         nw = sc.start()
@@ -185,6 +206,14 @@ def run_scenario(spec, fault=None, cut=None, fine=False):
             ch.active = False
         if kind == "hold":
             nw.apps[0].behaviour = "answer"     # from now on (the probe) requests are answered at once
+        # a peer whose connection attempt arrived together with the fault sends its CER now and is served
+        for s_ in list(sc.socks):
+            if getattr(s_, "newcomer", False) and not s_.fs.closed and not s_.cer_sent:
+                if sc.apply(("m", s_.idx, "cer_p0")):
+                    ceas = [f for f in s_.out if not f.h.is_request and f.h.code == 257]
+                    if not ceas or ceas[0].result_code != 2001:
+                        vs.append(("newcomer-arriving-with-the-fault-not-served", f"[{name}] its CER got {ceas}"))
+                    sc.apply(("eof", s_.idx))
         # let every timeout pass (connections of the consumer-last scenarios are kept alive by watchdog traffic meanwhile)
         for _ in range(9):
             sc.apply(("tick", 1))
@@ -320,7 +349,7 @@ def work(args):
         for k, d in vsf:
             out.setdefault(k + ":fault-free", (d, {"scenario": name, "fault": None, "fine": True}))
         for step in range(0, fsteps + 1):
-            for fk in ("eof", "rst") if tier != "thorough" else faults:
+            for fk in (("eof", "rst") if tier != "thorough" else faults) + (("eofacc",) if name in ("outbound-handshake-rejected", "inbound-handshake", "disconnect-peer") else ()):
                 n += 1
                 _, vs = run_scenario(spec, fault=(step, fk), fine=True)
                 for k, d in vs:
